@@ -20,6 +20,7 @@ func init() {
 }
 
 func c03(c *Ctx) {
+	c.pageLoopsComplete("complete", "CommitWAL")
 	c.walFrameReads("wal-frame/page-after-header")
 	p := c.P
 	call := func(n string) IM { return p.PlainCalls("litefs.(*DB)." + n) }
